@@ -577,7 +577,15 @@ def call_ext(interp, ext, node, args, kwargs, st):
             tsym = None
             if a0 is not None and a0.sym is not None and a0.kind in ("float", "int"):
                 tsym = Poly.atom(f"{name}<{a0.sym!r}>")
-            return fresh(D0, kind=a0.kind if a0 is not None and a0.kind in ("float", "arr") else "arr", sym=tsym)
+            rtags = frozenset()
+            if name in ARC_RANGE and a0 is not None:
+                # value range of the inverse function in units of pi/2 (range typing of angles, C11 ST-6)
+                lo, hi = ARC_RANGE[name]
+                if name in ("arcsin", "arctan") and _nonneg(a0):
+                    lo = 0
+                rtags = frozenset([("range", lo, hi)])
+                interp.emit(st, "arc", node, fn=name, arg=a0, result_sym=tsym, range=(lo, hi))
+            return fresh(D0, kind=a0.kind if a0 is not None and a0.kind in ("float", "arr") else "arr", sym=tsym, tags=rtags)
         if name in ALLOC_ANY:
             out = fresh(ANY, tags=frozenset(["alloc"]))
             if a0 is not None and a0.items is not None and a0.items and a0.items[-1].has_const() \
@@ -646,7 +654,16 @@ def call_ext(interp, ext, node, args, kwargs, st):
             b = args[1] if len(args) > 1 else Val()
             d = interp._unify_additive(a0, b, st, node, name)
             tags = frozenset(["mod2pi"]) if name in ("mod", "remainder", "fmod") and _is_2pi(b) else frozenset()
-            return fresh(d, tags=tags, kind=a0.kind if a0.kind in ("float", "int") and b.kind in ("float", "int") else "arr")
+            out = fresh(d, tags=tags, kind=a0.kind if a0.kind in ("float", "int") and b.kind in ("float", "int") else "arr")
+            if name in ("maximum", "minimum", "fmax", "fmin"):
+                cs = [c for c in (a0, b) if c.is_number_const()]
+                vs = [c for c in (a0, b) if not c.is_number_const()]
+                if len(cs) == 1 and len(vs) == 1:
+                    if vs[0].sym is not None and vs[0].kind in ("float", "int"):
+                        out.sym = Poly.atom(f"{name[-3:]}<{cs[0].const!r};{vs[0].sym!r}>")
+                    if _nonneg(vs[0]) and (name in ("maximum", "fmax") or cs[0].const >= 0):
+                        out.tags = out.tags | {"nonneg"}
+            return out
         if name in ("einsum",):
             ops = [a for a in args if a.kind != "str"]
             d = D0
@@ -675,7 +692,12 @@ def call_ext(interp, ext, node, args, kwargs, st):
             d, c = dim_unify(a0.dim, b.dim)
             if c:
                 interp.dimconflict(st, node, a0, b, "arctan2")
-            return fresh(D0)
+            tsym = None
+            if a0.sym is not None and b.sym is not None and a0.kind in ("float", "int") and b.kind in ("float", "int"):
+                tsym = Poly.atom(f"arctan2<{a0.sym!r};{b.sym!r}>")
+            rng = (0 if _nonneg(a0) else -2, 2)
+            interp.emit(st, "arc", node, fn=name, arg=a0, result_sym=tsym, range=rng)
+            return fresh(D0, sym=tsym, kind="float" if tsym is not None else "arr", tags=frozenset([("range",) + rng]))
         if name in ("where",):
             if len(args) == 1:
                 return Val(kind="tuple", elem=Val(dim=D0, kind="idx", deps=deps, born=t, tags=frozenset(["1d", "where-index"])), dim=D0,
@@ -726,7 +748,13 @@ def call_ext(interp, ext, node, args, kwargs, st):
         if name in ("meshgrid", "broadcast_arrays", "atleast_3d"):
             return fresh(a0.dim if a0 is not None else TOP)
         if name in ("clip",):
-            return fresh(a0.dim)
+            out = fresh(a0.dim, kind=a0.kind if a0.kind in ("float", "arr") else "arr")
+            lo_ = _arg(args, kwargs, 1, "a_min")
+            if a0.sym is not None and a0.kind in ("float", "int"):
+                out.sym = Poly.atom(f"clip<{a0.sym!r}>")
+            if _nonneg(a0) or (lo_ is not None and lo_.is_number_const() and lo_.const >= 0):
+                out.tags = out.tags | {"nonneg"}
+            return out
         if name in ("deg2rad", "rad2deg", "radians", "degrees", "angle"):
             return fresh(D0)
         if name in ("allclose",):
@@ -833,6 +861,14 @@ def join_all(items):
     return r
 
 
+ARC_RANGE = {"arccos": (0, 2), "arcsin": (-1, 1), "arctan": (-1, 1)}     # units of pi/2
+
+
+def _nonneg(v):
+    """the value is known to be >= 0 (a norm, an absolute value, a clamp of one of those)."""
+    return bool(v.tags & {"norm", "abs", "nonneg"}) or (v.is_number_const() and v.const >= 0)
+
+
 def _is_2pi(v):
     if v.is_number_const():
         return abs(v.const - 2 * math.pi) < 1e-12
@@ -908,6 +944,14 @@ def _builtin(interp, name, node, args, kwargs, st, fresh, deps, pdeps):
             d = d2
         out = Val(dim=d, kind="float", deps=deps, pdeps=pdeps, born=t)
         out.extra = (name, cands)
+        if len(cands) == 2:
+            # clamp of a symbolic scalar by a number: an opaque atom that keeps the sign knowledge
+            cs = [c for c in cands if c.is_number_const()]
+            vs = [c for c in cands if not c.is_number_const()]
+            if len(cs) == 1 and len(vs) == 1 and vs[0].sym is not None:
+                out.sym = Poly.atom(f"{name}<{cs[0].const!r};{vs[0].sym!r}>")
+                if _nonneg(vs[0]) and (name == "max" or cs[0].const >= 0):
+                    out.tags = out.tags | {"nonneg"}
         return out
     if name == "abs":
         interp.emit(st, "abs", node, target=a0)
